@@ -392,6 +392,140 @@ def run(ctx):
                 nviol += 1
     ctx.notes["tag_specifier_model"] = {"strings": len(tstrings), "parsed_by_both": nt_ok, "of_which_not_derivable_in_C11": nt_lenient, "rejected_by_model": nt_fail,
                                         "left_to_the_declaration": nt_skip, "disagreements": nt_dis}
+    # --- (0d) the declaration parser model (Declaration.lean composed with DeclParser.lean by the driver; theorems declaration_parse_pp /
+    # declaration_parse_sound / object_declarator_may_be_initialized) <-> the real parser: `specifiers init-declarator-list ;` and function
+    # definitions: which declarators may carry an initializer, typedef or variable declaration, which declarator makes a definition
+    DALPH = ["s", "typedef", "*", "(", ")", "[", "]", "3", "x", "c", ",", "=", "i", ";", "b"]
+    DSHAPES = [["x"], ["*", "x"], ["*", "c", "x"], ["x", "[", "3", "]"], ["x", "[", "]"], ["x", "(", "s", ")"], ["x", "(", ")"], ["(", "x", ")"],
+               ["(", "*", "x", ")", "(", "s", ")"], ["*", "x", "(", "s", ")"], ["(", "*", "x", "[", "3", "]", ")", "(", "s", ")"], ["x", "(", "s", "x", ",", "s", "*", ")"],
+               ["(", "(", "*", "x", ")", ")", "(", ")"], ["(", "x", ")", "[", "3", "]"], ["*", "*", "x"], ["x", "(", "s", ")", "[", "3", "]"], ["(", "x", "(", "s", ")", ")"]]
+
+    def gen_decl():
+        sp = ["s"] * rng.randrange(1, 3)
+        if rng.random() < 0.25:
+            sp.insert(rng.randrange(len(sp) + 1), "typedef")
+        if rng.random() < 0.07:
+            return sp + [";"]
+        if rng.random() < 0.25:
+            return sp + rng.choice(DSHAPES) + (["=", "i"] if rng.random() < 0.15 else []) + ["b"]
+        out = list(sp)
+        for j in range(rng.randrange(1, 4)):
+            out += ([","] if j else []) + rng.choice(DSHAPES) + (["=", "i"] if rng.random() < 0.4 else [])
+        return out + [";"]
+    dstrings = []
+    for n_ in range(0, 4 if ctx.quick else 5):
+        dstrings += [["s"] + list(p_) for p_ in _it.product(DALPH, repeat=n_)]
+    for _ in range(3000 if ctx.quick else 40000):
+        t = gen_decl()
+        dstrings.append(t)
+        m_ = list(t)
+        for _ in range(rng.randrange(1, 3)):
+            j = rng.randrange(1, len(m_) + 1)
+            r_ = rng.random()
+            if r_ < 0.35 and len(m_) > 1: del m_[min(j, len(m_) - 1)]
+            elif r_ < 0.7: m_.insert(j, rng.choice(DALPH))
+            elif len(m_) > 1: m_[min(j, len(m_) - 1)] = rng.choice(DALPH)
+        dstrings.append(m_)
+
+    def modelled(t):
+        """the renderings below make some token neighbourhoods mean something the model's alphabet does not have"""
+        for j, w in enumerate(t):
+            prv = t[j - 1] if j else ""
+            nxt = t[j + 1] if j + 1 < len(t) else ""
+            if w == "i" and (prv != "=" or nxt not in (",", ";", "b", "")): return False      # an expression: would absorb its neighbours
+            if w == "=" and nxt != "i": return False
+            if w == "[" and nxt not in ("3", "]"): return False                                 # an identifier / qualifier as array size
+            if w == "3" and not (prv == "[" and nxt == "]"): return False
+            if w == "(" and prv in ("x", ")", "]") and nxt not in ("s", ")"): return False     # identifier lists, typedef-name parameters
+            if w == "c" and prv not in ("*", "c"): return False                                 # a qualifier elsewhere is a specifier
+            if w == "b" and (nxt != "" or ";" in t[:j]): return False                           # K&R parameter declarations; text after a definition
+            if w == "x" and prv in ("x", ")", "]", "3"): return False                           # juxtaposed identifiers: typedef-name guesses
+            if w == "s" and j and prv not in ("s", "typedef", "(", ","): return False            # a specifier after a declarator token
+            if w == "typedef" and j and prv not in ("s", "typedef"): return False
+            if w in ("s", "typedef") and prv in ("s", "typedef") and any(x not in ("s", "typedef") for x in t[:j]): return False   # a parameter has ONE specifier in the model
+        return True
+    dstrings = [t for t in dstrings if modelled(t)]
+    dstrings = [list(x) for x in dict.fromkeys(tuple(t) for t in dstrings)]
+
+    def render_d(toks):
+        out, seen_decl = [], False
+        for j, w in enumerate(toks):
+            if w not in ("s", "typedef"):
+                seen_decl = True
+            if w == "s": out.append("int" if seen_decl or j == 0 or "int" in out else rng.choice(["int", "long", "unsigned", "char"]))
+            elif w == "x": out.append("v%d" % j)
+            elif w == "c": out.append(rng.choice(["const", "volatile"]))
+            elif w == "i": out.append(rng.choice(["1", "{ 1 , 2 }", "0"]))
+            elif w == "b": out.append(rng.choice(["{ }", "{ return ; }"]))
+            else: out.append(w)
+        return " ".join(out)
+    dtexts = [render_d(t) for t in dstrings]
+    dlines = ["2,1,0,2,%s a %s" % ("d" * 31, txt.encode().hex()) for txt in dtexts]
+    dimpl = stages.run_harness(ctx, "tree", dlines)
+    dmodel = leanb.model("declaration", "\n".join(" ".join(t) for t in dstrings) + "\n")
+    DK = {"IdentifierDeclarator": "I", "PointerDeclarator": "P", "ArrayDeclarator": "A", "FunctionDeclarator": "F", "ParenthesizedDeclarator": "R", "BitfieldDeclarator": "B"}
+
+    def decl_sexpr(dump):
+        recs = {}
+        for r in dump.split(" | ")[0].split(" ; ")[1:]:
+            w = r.split()
+            if w[0].startswith("N"):
+                recs[int(w[0][1:])] = (w[1], w[w.index(":") + 1:])
+        tu = recs.get(0)
+        if not tu:
+            return None
+        tops = re.findall(r"(\d+),\d+", " ".join(tu[1]))
+        if len(tops) != 1:
+            return None
+        kind, hs = recs[int(tops[0])]
+        hj = " ".join(hs)
+        lists = re.findall(r"L\(([^)]*)\)", hj)
+
+        def kids(i):
+            return [int(x) for x in re.findall(r"\bn(\d+)", " ".join(recs[i][1]))]
+
+        def shape(i):
+            k = recs[i][0]
+            if k not in DK:
+                return "?" + k
+            inner = [c for c in kids(i) if recs[c][0].endswith("Declarator")]
+            return DK[k] + ("(" + shape(inner[0]) + ")" if inner else "")
+
+        def has_init(i):
+            return any(recs[c][0].endswith("Initializer") or (recs[c][0].endswith("Declarator") and has_init(c)) for c in kids(i))
+        nsp = len(re.findall(r"(\d+),\d+", lists[0])) if lists else 0
+        if kind == "IncompleteDeclaration":
+            return "Incomplete %d" % nsp
+        if kind in ("VariableAndOrFunctionDeclaration", "TypedefDeclaration"):
+            ds = [int(x) for x in re.findall(r"(\d+),\d+", lists[1])]
+            return ("Variable" if kind[0] == "V" else "Typedef") + " %d" % nsp + "".join(" " + shape(d_) + ("=" if has_init(d_) else "") for d_ in ds)
+        if kind == "FunctionDefinition":
+            dd = [c for c in kids(int(tops[0])) if recs[c][0].endswith("Declarator")]
+            return "FunctionDefinition %d %s" % (nsp, shape(dd[0]) if dd else "?")
+        return "?" + kind
+    nd_ok = nd_fail = nd_dis = 0
+    for t, txt, i, m, l in zip(dstrings, dtexts, dimpl, dmodel, dlines):
+        if i.startswith(("CRASH", "HANG")):
+            viol("crash:" + txt[:80], "parsing %r: %s" % (txt, i[:200]), txt, l); continue
+        try:
+            ntok = int(i.split(" ;")[0]) - 2
+        except ValueError:
+            ntok = -1
+        diags = i.split(" | ")[-1].strip() or "-"
+        full = re.search(r"N0 \w+ f1 l%d " % ntok, i) is not None
+        gs = decl_sexpr(i) if diags == "-" and full else None
+        gs = gs or "FAIL"
+        if m == "FAIL": nd_fail += 1
+        else: nd_ok += 1
+        if gs != m:
+            nd_dis += 1
+            if nd_dis <= 4:
+                ctx.report(("decl:" if m != "FAIL" else "decl-corr:") + txt[:100],
+                           "declaration %r: the parser built %s, the Lean model of the declaration parser (composed with the declarator parser model) gives %s" % (txt, gs, m),
+                           {"component": "tree", "case": l, "impl": gs, "model": m, "tokens": " ".join(t)}, no_input=(m == "FAIL"))
+            if m != "FAIL":
+                nviol += 1
+    ctx.notes["declaration_model"] = {"strings": len(dstrings), "parsed_by_both": nd_ok, "rejected_by_model": nd_fail, "disagreements": nd_dis}
     # --- (1) operator+ : complete translation validation
     impl_tab = stages.run_harness(ctx, "accept", ["ctxadd"])[0].strip()
     model_tab = leanb.model("stmtctx", "ctxadd\n")[0].strip()
